@@ -1,8 +1,11 @@
 #!/bin/sh
-# runs every seeded change against the quick check of the property it breaks; results in /tmp/seed_matrix.log
-: > /tmp/seed_matrix.log
+# runs every seeded change against the quick check of the property it breaks (and extra checks named after the seed
+# id in tools/seed_extra.txt); results in /var/tmp/seed_matrix.log.  Each seed is applied in a scratch worktree of /repo.
+L=/var/tmp/seed_matrix.log
+: > $L
 for d in /verif/seeded/*/; do
   s=$(basename $d); p=${s%%-*}
-  VERIF_TIMEOUT=${VERIF_TIMEOUT:-300} VERIF_JOBS=8 /verif/tools/try_seed.sh $s $p | head -3 | cut -c1-230 >> /tmp/seed_matrix.log 2>&1
+  [ -n "$1" ] && case " $* " in *" $s "*) ;; *) continue;; esac
+  VERIF_JOBS=${VERIF_JOBS:-10} /verif/tools/try_seed.sh $s $p | head -3 | cut -c1-230 >> $L 2>&1
 done
-echo DONE >> /tmp/seed_matrix.log
+echo DONE >> $L
